@@ -235,7 +235,7 @@ def native_doc(exe, chars, opts):
     import subprocess
     doc = "".join(chr(c) for c in chars)
     lines = ["mode htmldoc", "scripting %d" % (1 if opts.get("scripting", True) else 0), "srcdoc %d" % (1 if opts.get("iframe_srcdoc") else 0),
-             "quirks " + opts.get("quirks", "NoQuirks")]
+             "quirks " + opts.get("quirks", "NoQuirks"), "tbexact %d" % (1 if opts.get("exact_errors") else 0), "dropdoctype %d" % (1 if opts.get("drop_doctype") else 0)]
     if opts.get("context"):
         lines += ["context %s %s" % (opts["context"][0].encode().hex(), opts["context"][1].encode().hex()),
                   "ctxscripting %d" % (1 if opts.get("ctx_scripting", True) else 0)]
@@ -256,7 +256,7 @@ def native_doc(exe, chars, opts):
     if p.returncode != 0:
         err = p.stderr.decode(errors="replace").splitlines()
         panic = "exit %d: %s" % (p.returncode, " ".join(l.strip() for i, l in enumerate(err) if "panicked at" in l or (i > 0 and "panicked at" in err[i - 1]))[:300])
-    tree = [l for l in out if l[:1].isdigit() or l.startswith("quirks ")]
+    tree = [l for l in out if l[:1].isdigit() or l.startswith("quirks ") or l.startswith("indicator ")]
     return tree, [l[9:] for l in out if l.startswith("contract ")], [l[6:] for l in out if l.startswith("trace ")], panic, case
 
 
@@ -327,7 +327,7 @@ def skeleton_lines(lines):
 
 def unit_concrete(args):
     """one concrete document through the interpreted parser: canonical tree + monitors (encoder self-validation)"""
-    res = {"doc": args["doc"], "opts": args["opts"], "errors": [], "outcome": "ok", "canon": None, "contract": [], "trace": []}
+    res = {"doc": args["doc"], "opts": args["opts"], "errors": [], "outcome": "ok", "canon": None, "contract": [], "trace": [], "indicators": []}
     try:
         m = Machine(TC._PROG, [])
         m.max_steps = max(m.max_steps, 3000000)
@@ -335,6 +335,7 @@ def unit_concrete(args):
         try:
             st = htmltree.run(m, [ord(c) for c in args["doc"]], htmltree.Opts(**{k: (tuple(v) if k == "context" and v else v) for k, v in o.items()}))
             res["canon"] = domsink.canon(st)
+            res["indicators"] = ["indicator " + bytes(MD.byte_view(lab)).hex() for (lab, _) in m.notes.get("indicators", [])]
             res["contract"] = list(st["contract"])
             res["trace"] = trace_check(st, m)
         except Panic as e:
@@ -344,3 +345,232 @@ def unit_concrete(args):
     except Exception:
         res["errors"].append("exception: " + traceback.format_exc()[-600:])
     return res
+
+
+# ---------------------------------------------------------------- C08 (tree-builder half): options change nothing else
+def observe(st, drop=("parse_error",), no_doctype=False):
+    """the sink-visible effect of a parse: every call except parse errors (and, for drop_doctype, the doctype), then quirks"""
+    out = []
+    for c in st["calls"]:
+        if c[0] in drop or (no_doctype and c[0] == "append_doctype_to_document"):
+            continue
+        out.append(c)
+    out.append(("quirks", st["quirks"] or "NoQuirks"))
+    out.append(("feeds",) + tuple(st.get("feed_results", ())))
+    return out
+
+
+def obs_diff(a, b):
+    """-> True (equal) | str (structurally different) | list of z3 conditions, one of which must hold for a difference"""
+    if len(a) != len(b):
+        return "%d sink calls vs %d" % (len(a), len(b))
+    conds = []
+    for x, y in zip(a, b):
+        if x[0] != y[0] or len(x) != len(y):
+            return "call %s vs %s" % (x[0], y[0])
+        for p, q in zip(x[1:], y[1:]):
+            if isinstance(p, list) and isinstance(q, list):
+                if len(p) != len(q):
+                    return "%s: attribute lists of %d vs %d" % (x[0], len(p), len(q))
+                pairs = list(zip(p, q))
+            else:
+                pairs = [(p, q)]
+            for u, v in pairs:
+                if isinstance(u, (int, str, bool, type(None))) or isinstance(v, (int, str, bool, type(None))):
+                    if u != v:
+                        return "%s: %r vs %r" % (x[0], u, v)
+                    continue
+                try:
+                    e = MD.val_eq(u, v)
+                except Unsupported:
+                    return "%s: incomparable %r vs %r" % (x[0], u, v)
+                if e is False:
+                    return "%s: %r vs %r" % (x[0], u, v)
+                if e is not True:
+                    conds.append(z3.Not(e))
+    return conds if conds else True
+
+
+def explore_tree(chars, cons, o, maxp):
+    """all paths of one configuration -> [(pc, sink state | None, outcome, machine notes)]"""
+    out, work, nq = [], [[]], 0
+    while work:
+        d = work.pop()
+        m = Machine(TC._PROG, d)
+        m.max_steps = max(m.max_steps, 3000000)
+        for c in cons:
+            m.assume(c)
+        try:
+            st = htmltree.run(m, chars, htmltree.Opts(**{k: (tuple(v) if k == "context" and v else v) for k, v in o.items()}))
+            out.append((list(m.pc), st, "ok", m.notes))
+        except Panic as e:
+            out.append((list(m.pc), m.notes.get("tree"), "panic: " + e.msg, m.notes))
+        except PathEnd:
+            pass
+        work.extend(m.pending)
+        nq += m.nqueries
+        if len(out) > maxp:
+            raise Unsupported("path budget exceeded")
+    return out, nq
+
+
+def unit_tree_diff(args):
+    """args: name, shape, opts (base), variant (dict of option overrides), no_doctype (bool)"""
+    t0 = time.time()
+    res = {"unit": "treediff %s" % args["name"], "name": args["name"], "paths": 0, "queries": 0, "obligations": 0, "errors": [], "C08": [], "budget_hit": False, "steps": 0}
+    try:
+        chars, cons = build_input(args["shape"])
+        base_o, var_o = dict(args.get("opts", {})), dict(args.get("opts", {}), **args["variant"])
+        base, nq = explore_tree(chars, cons, base_o, args.get("max_paths", 3000))
+        res["queries"] += nq
+        seen = set()
+        for (pca, sta, outa, _) in base:
+            res["paths"] += 1
+            var, nq = explore_tree(chars, list(cons) + pca, var_o, args.get("max_paths", 3000))
+            res["queries"] += nq
+            for (pcb, stb, outb, _) in var:
+                res["obligations"] += 1
+                if outa != "ok" or outb != "ok":
+                    d = True if (outa != "ok") == (outb != "ok") else "one configuration panics: %s / %s" % (outa, outb)
+                else:
+                    d = obs_diff(observe(sta, no_doctype=args.get("no_doctype", False)), observe(stb, no_doctype=args.get("no_doctype", False)))
+                if d is True:
+                    continue
+                rr, mo = TC.model_of(list(cons) + pca + pcb, [z3.Or(d)] if isinstance(d, list) else [])
+                res["queries"] += 1
+                if rr == z3.unsat:
+                    continue
+                if rr != z3.sat:
+                    res["errors"].append("solver unknown")
+                    continue
+                msg = d if isinstance(d, str) else "a call argument differs"
+                if msg[:40] in seen:
+                    continue
+                seen.add(msg[:40])
+                res["C08"].append({"what": "%s changes the parse: %s" % (args["variant"], msg), "chars": concretize(chars, mo), "opts": base_o, "variant": args["variant"],
+                                   "no_doctype": args.get("no_doctype", False), "name": args["name"]})
+    except Unsupported as e:
+        res["errors"].append("unsupported: " + str(e)[:300])
+    except Exception:
+        res["errors"].append("exception: " + traceback.format_exc()[-900:])
+    res["wall"] = time.time() - t0
+    return res
+
+
+# ---------------------------------------------------------------- C19 (b): when feed() reports an encoding indicator
+def unit_meta(args):
+    """every feasible path: the EncodingIndicator results of feed() are exactly, in order, the labels of the inserted HTML
+    meta elements that carry a charset attribute, or http-equiv ~ content-type plus a content attribute from which the
+    WHATWG extraction algorithm (spec/meta_charset_ref.py) returns a label; at each of them the meta element is in the tree"""
+    from spec import meta_charset_ref as R
+    t0 = time.time()
+    res = {"unit": "meta %s" % args["name"], "name": args["name"], "paths": 0, "queries": 0, "obligations": 0, "errors": [], "C19": [], "budget_hit": False, "steps": 0}
+    try:
+        chars, cons = build_input(args["shape"])
+        o = args.get("opts", {})
+        paths, nq = explore_tree(chars, cons, o, args.get("max_paths", 3000))
+        res["queries"] += nq
+        seen = set()
+        for (pc, st, outcome, notes) in paths:
+            res["paths"] += 1
+            if outcome != "ok":
+                continue
+            got = list(notes.get("indicators", []))          # [(label chars, meta attached?)]
+            metas = [c for c in st["calls"] if c[0] == "create_element" and MD.seq_eq(c[2].f[1].ch, [ord(x) for x in HTML]) is True
+                     and MD.seq_eq(c[2].f[2].ch, [ord(x) for x in "meta"]) is True]
+            # expected labels under this path (the reference forks on symbolic characters: explore it)
+            rwork = [[]]
+            while rwork:
+                rd = rwork.pop()
+                m2 = Machine(None, rd)
+                for c in list(cons) + pc:
+                    m2.assume(c)
+                try:
+                    exp = []
+                    for c in metas:
+                        attrs = c[3]
+
+                        def attr(name):
+                            for a in attrs:
+                                if len(a.f[0].f[1].ch) == 0 and MD.seq_eq(a.f[0].f[2].ch, [ord(x) for x in name]) is True:
+                                    return a.f[1].ch
+                            return None
+                        cs, he, ct = attr("charset"), attr("http-equiv"), attr("content")
+                        if cs is not None:
+                            exp.append(list(cs))
+                        elif he is not None and ct is not None and m2.branch_bool(MD.seq_eq([MD.ascii_lower(x) for x in he], [ord(x) for x in "content-type"]), "http-equiv"):
+                            lab = R.extract(m2, MD.byte_view(list(ct)))
+                            if lab is not None:
+                                exp.append(("bytes", list(lab)))
+                except PathEnd:
+                    rwork.extend(m2.pending)
+                    continue
+                rwork.extend(m2.pending)
+                res["queries"] += m2.nqueries
+                res["obligations"] += 1
+                bad, conds = None, []
+                if len(got) != len(exp):
+                    bad = "feed() reported %d encoding indicators, %d meta elements qualify" % (len(got), len(exp))
+                else:
+                    for (lab, attached), e in zip(got, exp):
+                        if not attached:
+                            bad = "the meta element is not in the tree when the indicator is reported"
+                        want = e[1] if isinstance(e, tuple) else MD.byte_view(e)
+                        have = MD.byte_view(lab)
+                        if len(want) != len(have):
+                            bad = "label of %d bytes reported, %d expected" % (len(have), len(want))
+                            break
+                        for u, v in zip(have, want):
+                            if isinstance(u, int) and isinstance(v, int):
+                                if u != v:
+                                    bad = "label differs"
+                            else:
+                                conds.append(u != v)
+                if bad is None and not conds:
+                    continue
+                rr, mo = TC.model_of(list(m2.pc), [z3.Or(conds)] if (bad is None and conds) else [])
+                res["queries"] += 1
+                if rr == z3.unsat:
+                    continue
+                if rr != z3.sat:
+                    res["errors"].append("solver unknown")
+                    continue
+                msg = bad or "the reported label differs from the expected one"
+                if msg[:40] in seen:
+                    continue
+                seen.add(msg[:40])
+                res["C19"].append({"what": msg, "chars": concretize(chars, mo), "opts": o, "name": args["name"]})
+    except Unsupported as e:
+        res["errors"].append("unsupported: " + str(e)[:300])
+    except Exception:
+        res["errors"].append("exception: " + traceback.format_exc()[-900:])
+    res["wall"] = time.time() - t0
+    return res
+
+
+def expected_indicators(tree_lines):
+    """the encoding indicators a parse must have reported, from the (native) tree: one per HTML meta element that qualifies"""
+    from spec import meta_charset_ref as R
+    out = []
+    for l in tree_lines:
+        f = l.split(" ", 3)
+        if len(f) < 3 or f[1] != "elem":
+            continue
+        ns, local = f[2].split(":")
+        if bytes.fromhex(ns).decode() != HTML or bytes.fromhex(local).decode() != "meta":
+            continue
+        attrs = {}
+        for a in (f[3].strip("[]").split(" ") if len(f) > 3 else []):
+            if "=" not in a:
+                continue
+            name, val = a.split("=", 1)
+            ans, al = name.split(":")
+            if ans == "":
+                attrs.setdefault(bytes.fromhex(al).decode("utf-8", "replace"), bytes.fromhex(val))
+        if "charset" in attrs:
+            out.append("indicator " + attrs["charset"].hex())
+        elif attrs.get("http-equiv", b"").lower() == b"content-type" and "content" in attrs:
+            lab = R.extract(Machine(None, []), list(attrs["content"]))
+            if lab is not None:
+                out.append("indicator " + bytes(lab).hex())
+    return out
